@@ -33,9 +33,11 @@ pub enum Ending {
     MidBodySilent,
     /// header + part of an oversized body, then silence
     OversizedPartialSilent,
+    /// header + part of an oversized body, a pause, more of the body (read by the discard loop itself), then close
+    OversizedTrickleClose,
 }
 
-const ENDINGS: [Ending; 12] = [
+const ENDINGS: [Ending; 13] = [
     Ending::ClientClose,
     Ending::Quit,
     Ending::QuitQ,
@@ -48,9 +50,10 @@ const ENDINGS: [Ending; 12] = [
     Ending::Rst,
     Ending::MidBodySilent,
     Ending::OversizedPartialSilent,
+    Ending::OversizedTrickleClose,
 ];
 
-pub const RULE_C17: &str = "a case is one scenario on a fresh server with connection limit 1..4: a sequence of 3*limit..6*limit connection lifecycles, each ended in one of twelve ways (client close, quit, quitq, disconnect mid-header / mid-body, invalid magic, oversized item then close, oversized item cut in its body, idle timeout while idle / inside a body / inside an oversized body, RST; waiting connections may also close or reset before they are served); after every step the monitor demands: no more than `limit` connections have a noop answered while open, free permits (cfg(memcrs_verif) accessor) == limit - open served connections at quiescence (server-side endings are checked while the client socket is still open), a waiting connection is picked up after a slot frees, and at the end `limit` fresh connections are served and one more is not; non-trivial when the limit was reached at least once; distinct by the sequence of ending kinds";
+pub const RULE_C17: &str = "a case is one scenario on a fresh server with connection limit 1..4: a sequence of 3*limit..6*limit connection lifecycles, each ended in one of thirteen ways (client close, quit, quitq, disconnect mid-header / mid-body, invalid magic, oversized item then close, oversized item cut in its body - in one segment or trickled -, idle timeout while idle / inside a body / inside an oversized body, RST; waiting connections may also close or reset before they are served); after every step the monitor demands: no more than `limit` connections have a noop answered while open, free permits (cfg(memcrs_verif) accessor) == limit - open served connections at quiescence (server-side endings are checked while the client socket is still open), a waiting connection is picked up after a slot frees, and at the end `limit` fresh connections are served and one more is not; non-trivial when the limit was reached at least once; distinct by the sequence of ending kinds";
 
 struct Slot {
     cli: Cli,
@@ -243,6 +246,16 @@ fn scenario_c17(ctx: &Ctx, case: u64, local: &mut BTreeMap<String, u64>) -> (Vec
             Ending::OversizedPartial => {
                 let f = wire::store(op::SET, b"big", &vec![b'x'; 5000], 0, 0, 0x77, 0).encode();
                 let _ = c.s.write_all(&f[..24 + 2000]);
+                std::thread::sleep(Duration::from_millis(10));
+                drop(c);
+            }
+            Ending::OversizedTrickleClose => {
+                let f = wire::store(op::SET, b"big", &vec![b'x'; 5000], 0, 0, 0x77, 0).encode();
+                let _ = c.s.write_all(&f[..24 + 1500]);
+                std::thread::sleep(Duration::from_millis(15));
+                let _ = c.s.write_all(&f[24 + 1500..24 + 2500]);
+                std::thread::sleep(Duration::from_millis(15));
+                let _ = c.s.write_all(&f[24 + 2500..24 + 2600]);
                 std::thread::sleep(Duration::from_millis(10));
                 drop(c);
             }
